@@ -46,6 +46,18 @@ func (g *customGen[V]) maybeValue(t *T) (V, bool) {
 	defer func() {
 		if r := recover(); r != nil {
 			if _, ok := r.(invalidData); !ok {
+				// Run the cleanup functions of this attempt before the panic goes on: skipping from a cleanup
+				// function must not turn a panic of the generator function into a rejected attempt.
+				func() {
+					defer func() {
+						if cr := recover(); cr != nil {
+							if _, ok := cr.(invalidData); !ok {
+								r = cr // a panicking cleanup function wins, as before
+							}
+						}
+					}()
+					t.cleanup()
+				}()
 				panic(r)
 			}
 		}
